@@ -1,14 +1,18 @@
 import logging
 from typing import List, Optional
 
-from tempren.primitives import Pattern, QualifiedTagName
+from tempren.primitives import Location, Pattern, QualifiedTagName
 from tempren.template.ast import (
     PatternElement,
     PatternElementSequence,
     TagInstance,
     TagPlaceholder,
 )
-from tempren.template.exceptions import TagError, TemplateError
+from tempren.template.exceptions import (
+    TagError,
+    TemplateError,
+    TemplateSyntaxError,
+)
 from tempren.template.parser import TemplateParser
 from tempren.template.registry import TagRegistry
 
@@ -30,6 +34,11 @@ class TemplateCompiler:
         except TemplateError as template_error:
             template_error.template = template_text
             raise
+        except RecursionError:
+            # Parser and binder are recursive - very deep nesting exhausts the interpreter stack
+            nesting_error = TemplateSyntaxError("template is nested too deeply")
+            nesting_error.template = template_text
+            raise nesting_error.with_location(Location(1, 0, len(template_text)))
 
     def _bind(self, pattern: Pattern) -> Pattern:
         assert isinstance(pattern, PatternElementSequence)
